@@ -1,12 +1,7 @@
-(* notes/codec_stream_instantiation.v — NOT part of the build of branch w/codec.
-
-   After merging w/codec, w/reader (>= 4947df9) and w/writer (BufWriterRef.v / BufWriterThm.v),
-   move this file to coq/Proofs/StreamInst.v: it discharges the two contracts that the stream
-   theorems of C01 / C12 are parametric in, with the interface lemmas of the buffered reader
-   (C04, Proofs/BufReaderP.v section "INTERFACE") and writer (C05, Proofs/BufWriterRef.v), and
-   restates the stream theorems closed — for every source and every fragmentation script that
-   cannot stall, for every writer history.  It was compiled against those two branches in a
-   scratch copy (see the final report of engineer codec). *)
+(* Proofs/StreamInst.v — discharges the two contracts that the stream theorems of C01 / C12 are
+   parametric in (reader_contract, writer_contract) with the interface lemmas of the buffered reader
+   (C04, Proofs/BufReaderP.v) and writer (C05, Proofs/BufWriterRef.v), and restates the stream theorems
+   closed: for every source and every fragmentation script that cannot stall, every writer history. *)
 From GV Require Import Lib.Bytes Lib.Res Lib.Heap Gen.Consts Spec.Log Spec.Cursor Spec.Wire
      Model.Binary Model.BufWriter Model.BufReader Model.StreamCodec
      Proofs.BinaryP Proofs.MessageP Proofs.StreamWriterP Proofs.StreamReaderP
